@@ -83,6 +83,30 @@ Proof. split; try reflexivity. exists []. reflexivity. Qed.
 Lemma set_orders_wsame o w : wsame w (set_orders o w).
 Proof. split; try reflexivity. exists []. reflexivity. Qed.
 
+(* a hypothesis on the oracle's answers, like [good] of Proofs/PulseInv.v: round(x, 5) of an argument that is exactly 1
+   is 1 (decimal rounding is the identity on 1.0; Tie/C20.v checks it on every run) *)
+Definition round_one (l : list req) : Prop := forall r, In r l -> rq_kind r = RN -> rq_arg r == 1 -> rq_ans r == 1.
+Lemma round_one_app l1 l2 : round_one (l1 ++ l2) -> round_one l2.
+Proof. intros H r Hr. apply H, in_or_app. right. exact Hr. Qed.
+Definition round_one_b (l : list req) : bool :=
+  forallb (fun r => match rq_kind r with RN => negb (Qeq_bool (rq_arg r) 1) || Qeq_bool (rq_ans r) 1 | _ => true end) l.
+Lemma round_one_b_ok l : round_one_b l = true -> round_one l.
+Proof.
+  unfold round_one_b. rewrite forallb_forall. intros H r Hr Hk Ha. specialize (H r Hr). rewrite Hk in H.
+  apply orb_true_iff in H. destruct H as [H|H].
+  - apply negb_true_iff in H. apply Qeq_bool_iff in Ha. congruence.
+  - apply Qeq_bool_iff, H.
+Qed.
+
+(* a phase that rounds to 1 is "already synchronised" *)
+Lemma clamp01_one r : r == 1 -> is01 (clamp01 r) = true.
+Proof.
+  intros H. unfold clamp01, pymax, pymin.
+  destruct (Qltb 1 r) eqn:E1; [apply Qltb_true in E1; lra|].
+  destruct (Qltb r 0) eqn:E2; [apply Qltb_true in E2; lra|].
+  unfold is01. apply orb_true_iff. left. apply Qeq_bool_iff. exact H.
+Qed.
+
 Section Steps.
 Variable cfg : pcfg.
 Notation period := (pc_period cfg).
@@ -205,30 +229,58 @@ Proof.
   apply (qsteps_one t (Some n)). apply set_firing_time_step; assumption.
 Qed.
 
-Lemma cascade_steps t n m w a : exists ns, qsteps t ns (w, a) (cascade cfg t n m (w, a)) /\ Forall (eq m) ns.
+(* cascade from the point where the phase of m has been read *)
+Lemma cascade_steps_from t n m w a :
+  exists ns, qsteps t ns (snd (get_phase cfg t m w), a) (cascade cfg t n m (w, a)) /\ Forall (eq m) ns.
 Proof.
   unfold cascade. cbn [fst snd].
-  destruct (get_phase cfg t m w) as [phi w1] eqn:E1. apply get_phase_spec in E1. destruct E1 as [S1 _].
-  destruct (ask RS t phi w1) as [state w2] eqn:E2. apply ask_wsame in E2.
-  assert (S2 : wsame w w2) by (eapply wsame_trans; eassumption).
-  destruct (is01 state).
-  { exists []. split; [apply qsteps_same, S2|constructor]. }
-  destruct (get_phase cfg t m w2) as [phi2 w3] eqn:E3. apply get_phase_spec in E3. destruct E3 as [S3 _].
-  destruct (ask RS t phi2 w3) as [s2 w4] eqn:E4. apply ask_wsame in E4.
+  destruct (get_phase cfg t m w) as [phi w1] eqn:E1. cbn [snd].
+  destruct (is01 phi).
+  { exists []. split; [apply qss_nil|constructor]. }
+  destruct (ask RS t phi w1) as [s2 w4] eqn:E4. apply ask_wsame in E4.
   destruct (ask RG t (Qred (pc_coupling cfg + s2)) w4) as [g w5] eqn:E5. apply ask_wsame in E5.
   destruct (normalise_phase t g w5) as [newPhase w6] eqn:E6. apply normalise_phase_spec in E6. destruct E6 as [S6 _].
-  assert (S7 : wsame w w6).
-  { apply (wsame_trans _ _ _ S2). apply (wsame_trans _ _ _ S3). apply (wsame_trans _ _ _ E4). apply (wsame_trans _ _ _ E5). exact S6. }
+  assert (S7 : wsame w1 w6).
+  { apply (wsame_trans _ _ _ E4). apply (wsame_trans _ _ _ E5). exact S6. }
   pose proof (set_phase_steps t m newPhase w6 a) as H7.
   destruct (set_phase cfg t m newPhase (w6, a)) as [w7 a7] eqn:E7. cbn [fst snd].
   destruct (get_phase cfg t m w7) as [newState w8] eqn:E8. apply get_phase_spec in E8. destruct E8 as [S8 _].
-  assert (H8 : qsteps t [m] (w, a) (w8, a7)).
+  assert (H8 : qsteps t [m] (w1, a) (w8, a7)).
   { apply (qsteps_trans t [] ([m] ++ []) _ (w6, a)); [apply qsteps_same, S7|].
     eapply qsteps_trans; [exact H7|apply qsteps_same, S8]. }
   destruct (is01 newState).
   - exists ([m] ++ [m]). split; [|repeat constructor].
     eapply qsteps_trans; [exact H8|apply set_phase_steps].
   - exists [m]. split; [exact H8|repeat constructor].
+Qed.
+
+Lemma cascade_steps t n m w a : exists ns, qsteps t ns (w, a) (cascade cfg t n m (w, a)) /\ Forall (eq m) ns.
+Proof.
+  destruct (cascade_steps_from t n m w a) as [ns [H F]].
+  destruct (get_phase cfg t m w) as [phi w1] eqn:E1. apply get_phase_spec in E1. destruct E1 as [S1 _]. cbn [snd] in H.
+  exists ([] ++ ns). split; [|exact F].
+  eapply qsteps_trans; [apply qsteps_same, S1|exact H].
+Qed.
+
+(* a node that is due now (its firing is pending at the handler's time t) is passed over: its phase is
+   normalisePhase(1 - (t - t) / period), the rounding of exactly 1 *)
+Lemma cascade_due_kept t n m w a k :
+  ev_of w m = Some (k, t) -> round_one (pw_reqs (fst (cascade cfg t n m (w, a)))) ->
+  wsame w (fst (cascade cfg t n m (w, a))).
+Proof.
+  intros Hev Hr.
+  destruct (cascade_steps_from t n m w a) as [ns [Hs _]].
+  destruct (qsteps_keeps _ _ _ _ Hs) as [_ [_ [_ [_ [[l Hl] _]]]]]. cbn [fst] in Hl.
+  revert Hr Hl. unfold cascade, get_phase. cbn [fst snd]. rewrite Hev.
+  destruct (normalise_phase t (1 - (t - t) / period) w) as [phi w1] eqn:E.
+  apply normalise_phase_spec in E. destruct E as [S [_ [_ [r [-> Hrq]]]]]. cbn [snd].
+  intros Hr Hl.
+  assert (H1 : r == 1).
+  { apply (Hr (mkreq RN t (Qred (1 - (t - t) / period)) r)).
+    - rewrite Hl. apply in_or_app. right. rewrite Hrq. left. reflexivity.
+    - reflexivity.
+    - cbn [rq_arg mkreq]. rewrite Qred_correct. unfold Qdiv. ring. }
+  rewrite (clamp01_one r H1). cbn [fst]. exact S.
 Qed.
 
 (* programs that also change the bumping / bumped sets *)
@@ -372,6 +424,57 @@ Proof.
   - change [n] with ([] ++ [n]). eapply psteps_trans; [apply psteps_sets|exact H1].
   - eapply psteps_trans; [apply psteps_q, qsteps_same, S3|exact H4].
   - exact N4.
+Qed.
+
+(* a node other than the firing one that is due at the event's time is still due at that time afterwards *)
+Lemma cascade_loop_due_kept t n m k ms : forall w a, In n (pw_bumped w) ->
+  ev_of w m = Some (k, t) -> round_one (pw_reqs (fst (cascade_loop cfg t n ms (w, a)))) ->
+  ev_of (fst (cascade_loop cfg t n ms (w, a))) m = Some (k, t).
+Proof.
+  induction ms as [|m' ms IH]; intros w a Hn Hev Hr; cbn [cascade_loop] in *.
+  - exact Hev.
+  - cbn [fst snd] in *. set (w0 := set_sets (remz m' (pw_bumping w)) (pw_bumped w) w) in *.
+    change (pw_bumped w0) with (pw_bumped w) in *.
+    destruct (memz m' (pw_bumped w)) eqn:Em.
+    + apply IH; [exact Hn|exact Hev|exact Hr].
+    + destruct (cascade_steps t n m' w0 a) as [ns1 [H1 F1]].
+      pose proof (cascade_bumped t n m' w0 a) as Hb.
+      pose proof (cascade_due_kept t n m' w0 a k) as Hk.
+      destruct (cascade cfg t n m' (w0, a)) as [w2 a2]. cbn [fst snd] in *.
+      set (w3 := set_sets (pw_bumping w2) (addz m' (pw_bumped w2)) w2) in *.
+      assert (Hn3 : In n (pw_bumped w3)).
+      { cbn. apply addz_In. right. rewrite Hb. exact Hn. }
+      destruct (cascade_loop_steps t n ms w3 a2 Hn3) as [ns2 [H2 _]].
+      destruct (psteps_keeps _ _ _ _ H2) as [_ [_ [[l2 Hl2] _]]]. cbn [fst] in Hl2.
+      assert (Hr2 : round_one (pw_reqs w2)).
+      { rewrite Hl2 in Hr. apply round_one_app in Hr. exact Hr. }
+      apply IH; [exact Hn3| |exact Hr].
+      change (ev_of w3 m) with (ev_of w2 m).
+      destruct (Z.eq_dec m' m) as [->|Hne].
+      * rewrite ev_of_look, (ws_ev _ _ (Hk Hev Hr2)). exact Hev.
+      * assert (X : ev_of w2 m = ev_of w0 m).
+        { apply (qsteps_look _ _ _ _ H1 m). intros Hin. rewrite Forall_forall in F1. apply Hne. apply F1, Hin. }
+        rewrite X. exact Hev.
+Qed.
+
+Lemma fired_prog_due_kept t n l w w' acts m k : fired_prog cfg t (EN n) l w = (w', acts) -> m <> n ->
+  ev_of w m = Some (k, t) -> round_one (pw_reqs w') -> ev_of w' m = Some (k, t).
+Proof.
+  unfold fired_prog. intros E Hmn Hev Hr.
+  pose proof (fire_node_steps t n (set_sets [] [] w) []) as H1.
+  assert (Hb : In n (pw_bumped (fst (fire_node cfg t n (set_sets [] [] w, []))))).
+  { unfold fire_node. cbn [fst snd]. apply addz_In. left. reflexivity. }
+  destruct (fire_node cfg t n (set_sets [] [] w, [])) as [w1 a1] eqn:EFN. cbn [fst snd] in *.
+  destruct (pop_order (add_log t n w1)) as [ms w3] eqn:E3.
+  pose proof (pop_order_wsame _ _ _ E3) as S3.
+  assert (Hb3 : In n (pw_bumped w3)) by (rewrite (ws_bd _ _ S3); exact Hb).
+  assert (Hev3 : ev_of w3 m = Some (k, t)).
+  { rewrite ev_of_look, (ws_ev _ _ S3). cbn [pw_ev add_log]. rewrite <- ev_of_look.
+    destruct (psteps_keeps _ _ _ _ H1) as [_ [_ [_ [_ [K _]]]]]. cbn [fst] in K.
+    rewrite (K m); [exact Hev|]. intros [Hin|[]]. apply Hmn. symmetry. exact Hin. }
+  pose proof (cascade_loop_due_kept t n m k ms w3 a1 Hb3 Hev3) as H.
+  destruct (cascade_loop cfg t n ms (w3, a1)) as [w4 a4]. cbn [fst snd] in *.
+  injection E as <- <-. apply H, Hr.
 Qed.
 
 (* the firing node's own step, in full *)
